@@ -180,6 +180,39 @@ pub fn c12_def() -> PropDef {
     }
 }
 
+pub fn c15_def() -> PropDef {
+    PropDef {
+        id: "C15",
+        generate: |vs, idx, _| Record::Builder(crate::c15::generate(run_seed(vs, "C15", idx), idx)),
+        check: |rec, c| match rec {
+            Record::Builder(h) => crate::c15::check(h, c),
+            _ => Verdict::harness("wrong record kind".into()),
+        },
+        candidates: sim_candidates,
+        runs_quick: 200_000,
+        runs_thorough: 20_000_000,
+        level: "exploration",
+        rule: "seeded histories of 1-12 builder calls (with_rule, with_rules, with_function, with_functions, with_symbol, with_symbols via insert/append/From) over small name pools with repeats; function names = all 38 reserved words and 20 near-identifiers each forced through both entry points over the first 116 run indices, plus identifiers and don't-care names; a refused call consumes the builder, the accepted prefix is rebuilt and the history continues; each call is judged against a reference model of the builder, then the built ruleset is evaluated in the simulator with one probe rule per function name and symbol name of the pools; non-trivial = at least two calls; distinct = distinct (accept/refuse sequence with refusal classes, final table sizes) hashes in a 2^25-bit bitmap",
+        assumptions: &[
+            "well-formed identifier = ^[A-Za-z_][A-Za-z0-9_]*$ on ASCII names; the bare '_' and names containing non-ASCII letters are don't-cares (accepted => invocable under exactly that name; refused => nothing else is required)",
+            "reserved words = the 38 words the repository lists at the pinned commit",
+            "this property has no fault or schedule dimension; the technique contributes seeded operation histories against an executable reference model, probe evaluations in the simulator, and minimised replayable histories",
+        ],
+        real_components: &["Builder (with_rule, with_rules, with_function, with_functions, with_symbol, with_symbols, build)", "UserFunctions::add_boxed_function, is_reserved_keyword, is_valid_identifier", "Symbols (insert, append, From)", "RuleSet::evaluate_value for the probe evaluation"],
+        stub_components: STUB,
+        expected_hits: &[
+            "fault.builder_refusal",
+            "hit.refused.DuplicateRuleName",
+            "hit.refused.DuplicateFunctionName",
+            "hit.refused.InvalidFunctionName",
+            "hit.reserved_word_refused",
+            "hit.accepted_function_invoked",
+            "hit.symbol_resolved",
+            "hit.symbol_overwritten",
+        ],
+    }
+}
+
 pub fn all() -> Vec<PropDef> {
-    vec![c05_def(), c09_def(), c11_def(), c12_def()]
+    vec![c05_def(), c09_def(), c11_def(), c12_def(), c15_def()]
 }
